@@ -1053,7 +1053,6 @@ def run(chk: Check) -> int:
                           f"geometric mean within 1e-9 (TwapOk fails)", {"kind": "twap", "token": tok, "window": list(win), "value": str(g)})
         for i in bad[4:]:
             chk.violation(f"SqueethMarket.get_twap_price|twap_relational|window_{len(obs[i - 1][0][1])}", "", {})
-    n_distinct = len(chk.clauses)
     chk.extra["distinct_nontrivial"] = sum(v for k, v in chk.clauses.items() if k.startswith("cover/liq") or k == "cover/reduce_debt")
     return chk.finish("every edge of the TLC operation graph (state-relative amounts at the 1.5x / 0.5 ETH limits -/+ 1e-6, oversized "
                       "burns/withdrawals, with and without LP collateral, 3 price symbols) is replayed by direct calls on fresh real "
